@@ -49,6 +49,7 @@ type c10Cfg struct {
 	NameClass string
 	Flags     []string
 	Host      string
+	WireHost  string // Host header the proxy sees when a front proxy rewrites it ("" = Host); the jar always goes by Host
 	Path      string // request path of the store operations (inside the cookie path)
 	HTTPS     bool   // the jar treats the connection as secure (cookie-secure=true)
 	Heavy     bool   // gets the large enumerations
@@ -137,6 +138,12 @@ func c10Configs(run *vfRun, w *vfWorld) []c10Cfg {
 		add("cookie", n256, false, "residue"+pth, "", pth+"/x", false, "--cookie-path="+pth)
 		add("cookie", "_oauth2_proxy", false, "residue"+pth, "", pth+"/x", false, "--cookie-path="+pth)
 	}
+	// Host-rewriting front proxy: the browser addresses app.example.test, the proxy sees a host matching none of the configured
+	// domains (documented: the shortest configured domain is used) — sets and deletions must still agree
+	add("cookie", "_oauth2_proxy", false, "host-rewritten", "app.example.test", "", false, "--cookie-domain=example.test")
+	out[len(out)-1].WireHost = "internal-svc:4180"
+	add("cookie", c10Name(rng, 255), false, "host-rewritten", "app.example.test:8443", "", false, "--cookie-domain=proxy.example.test", "--cookie-domain=example.test")
+	out[len(out)-1].WireHost = "10.1.2.3:4180"
 	add("cookie", "_oauth2_proxy", false, "no-httponly", "", "", false, "--cookie-httponly=false")
 	add("cookie", "_oauth2_proxy", false, "expire0", "", "", false, "--cookie-expire=0")
 	add("cookie", "_oauth2_proxy", false, "expire-30m", "", "", false, "--cookie-expire=30m")
@@ -420,6 +427,9 @@ func c10NewBrowser(run *vfRun, cfg *c10Cfg, p *vfProxy, st *c10Stream) *c10Brows
 func (b *c10Browser) request() *http.Request {
 	req := httptest.NewRequest("GET", b.cfg.Path, nil)
 	req.Host = b.cfg.Host
+	if b.cfg.WireHost != "" {
+		req.Host = b.cfg.WireHost
+	}
 	if cs := b.jar.For(b.cfg.Host, b.cfg.Path, b.cfg.HTTPS); len(cs) > 0 {
 		req.Header.Set("Cookie", vfCookieHeader(cs))
 	}
@@ -442,7 +452,7 @@ func c10Tail(name string) string {
 }
 
 func (b *c10Browser) detail(extra map[string]interface{}) map[string]interface{} {
-	d := map[string]interface{}{"config": b.cfg.Label, "flags": b.p.Flags, "host": b.cfg.Host, "path": b.cfg.Path, "cookie_name": b.cfg.Name,
+	d := map[string]interface{}{"config": b.cfg.Label, "flags": b.p.Flags, "host": b.cfg.Host, "host_header_seen_by_proxy": b.cfg.WireHost, "path": b.cfg.Path, "cookie_name": b.cfg.Name,
 		"history": b.steps, "how_to_replay": "token = incompressible text of token_len bytes in AccessToken (variant 0) — see c10Make; drive p.SaveSession / p.LoadCookiedSession / p.ClearSessionCookie with one cookie jar"}
 	for k, v := range extra {
 		d[k] = v
@@ -639,6 +649,9 @@ func c10FindThresholds(run *vfRun, cfg *c10Cfg, p *vfProxy, st *c10Stream) c10Th
 	probe := func(L int) int {
 		req := httptest.NewRequest("GET", cfg.Path, nil)
 		req.Host = cfg.Host
+		if cfg.WireHost != "" {
+			req.Host = cfg.WireHost
+		}
 		rw := httptest.NewRecorder()
 		s := c10Make(st, c10Spec{L: L, UID: "thr-00000000"})
 		if err := p.P.SaveSession(rw, req, s); err != nil {
